@@ -441,6 +441,26 @@ func (e *Effects) keyOf(owner types.Type, f *types.Var) string {
 	return key
 }
 
+// callbackWrites: a call through a function value may write the objects its heap-pointer
+// arguments refer to (e.g. InflateOption closures mutate *inflateConfig).
+func (e *Effects) callbackWrites(fe *FuncEffects, call *ast.CallExpr) {
+	info := e.prog.Info
+	for _, a := range call.Args {
+		tv, ok := info.Types[a]
+		if !ok || tv.Type == nil || !e.smt.isHeapPtr(tv.Type) {
+			continue
+		}
+		pt := tv.Type.Underlying().(*types.Pointer)
+		st, ok := pt.Elem().Underlying().(*types.Struct)
+		if !ok {
+			continue
+		}
+		for i := 0; i < st.NumFields(); i++ {
+			fe.Writes[e.keyOf(pt.Elem(), st.Field(i))] = true
+		}
+	}
+}
+
 func (e *Effects) recordCall(fe *FuncEffects, call *ast.CallExpr) {
 	info := e.prog.Info
 	if tv, ok := info.Types[call.Fun]; ok && tv.IsType() {
@@ -463,6 +483,7 @@ func (e *Effects) recordCall(fe *FuncEffects, call *ast.CallExpr) {
 	}
 	if id == nil {
 		fe.CallsFuncValue = true
+		e.callbackWrites(fe, call)
 		return
 	}
 	switch o := info.Uses[id].(type) {
@@ -502,6 +523,7 @@ func (e *Effects) recordCall(fe *FuncEffects, call *ast.CallExpr) {
 		fe.sites = append(fe.sites, callSite{callee: key, args: args, call: call})
 	case *types.Var:
 		fe.CallsFuncValue = true
+		e.callbackWrites(fe, call)
 	}
 }
 
